@@ -121,6 +121,15 @@ def families(eng, tier, seed):
         if 8 <= len(sub) <= (60 if tier == "quick" else 400):
             fams.append(make_family("polkadot-closure-of-%d" % r0, sub, PSET, symbolic=False, dedup=True)); npk += 1
         if npk >= (5 if tier == "quick" else 40): break
+    # same-path families (two definitions under one path differing by one shape edit - fn-local types, two versions of
+    # a crate): generation must fail, or (after de-duplication) name each id with an item of its own shape. On a
+    # correct tree the first form yields no obligation; a generator that silently merges the two is caught here.
+    import c03
+    for ename, efn in c03.edits():
+        for order in (0, 1):
+            r = c03.edit_family(ename, efn, order)(None)
+            fams.append(make_family("samepath-%s-o%d" % (ename, order), r, STD, symbolic=False))
+            if order == 0 or tier == "thorough": fams.append(make_family("samepath-%s-o%d-dedup" % (ename, order), r, STD, symbolic=False, dedup=True))
     # retargeting: one field at a time
     for name, reg in C.items():
         if name in SKIP or name in ("versions", "assoc_skip", "assoc_noskip", "assoc_same"): continue
